@@ -194,8 +194,9 @@ pub fn graph_inputs(tier: &str, for_sched: bool) -> Vec<GraphCase> {
     let nmax = if for_sched { 3 } else if tier == "thorough" { 4 } else { 3 };
     for n in 1..=nmax {
         let mut es = all_edges(n);
-        if for_sched && n == 3 {
+        if (for_sched && n == 3) || n == 4 {
             // the unnamed zero-length array behaves like the named one under every schedule; explored at n <= 2
+            // (and, in the thorough graph space, at n <= 3: the 4-type space is held in memory at once)
             es.retain(|e| !matches!(e, Edge::Arr0Anon(_)));
         }
         let total = es.len().pow(n as u32);
@@ -215,7 +216,7 @@ pub fn graph_inputs(tier: &str, for_sched: bool) -> Vec<GraphCase> {
                 out.push(build_case(n, &edges, a, &order, "one_field"));
                 // the same graph with the other modules' types imported by name
                 let crosses = (0..n).any(|t| edges[t].iter().any(|e| e.target().is_some_and(|tt| tt < n && a[tt] != a[t])));
-                if crosses {
+                if crosses && n <= 3 {
                     out.push(build_case_ex(n, &edges, a, &order, "one_field_imports_by_name", true));
                 }
             }
